@@ -251,8 +251,8 @@ PROPS = {
     "C11": dict(
         level="proof", extra=["atomic_audit", "threads"], coq_files=["Properties/C11.v", "Properties/C11b.v", "Properties/C13.v"],
         theorems={"Properties/C11.v": ["C11_close_status", "C11_closed_monotone", "C11_send_after_close", "C11_close_wakes_all", "C11_close_wakes_trace", "C11_handles_trace", "C11_drain_then_none", "C11_implicit_close", "C11_last_receiver_clears"],
-                  "Properties/C11b.v": ["C11b_close_status", "C11b_closed_monotone", "C11b_implicit_close", "C11b_refuted_pinned"],
-                  "Properties/C13.v": ["C11c_close_status", "C11c_closed_monotone", "C11c_implicit_close"]},
+                  "Properties/C11b.v": ["C11b_close_status", "C11b_closed_monotone", "C11b_implicit_close", "C11b_refuted_pinned", "C11b_handles_trace"],
+                  "Properties/C13.v": ["C11c_close_status", "C11c_closed_monotone", "C11c_implicit_close", "C11c_handles_trace"]},
         runs=MPMC_RUNS + ONESHOT_RUNS + STATE_RUNS, keys=["r", "w", "p", "v"], assumptions=[SCHED_NOTE],
         monitor=dict(id=11, runs=["bcast-shared", "oneshot-shared", "state-shared", "mpmc-shared-c1", "mpmc-shared-c0", "mpmc-c0", "mpmc-c1"]),
         level_text="Theorems for mpmc, oneshot, oneshot-broadcast and state-broadcast models: close is permanent/idempotent (NewlyClosed once), sends after close fail returning the caller's value, every queued future is woken and unlinked, receivers drain the buffer in order then None/Closed; implicit close: for every interleaving of the atomic sections of clone/drop of any number of handles, without explicit close the channel is closed iff a side has no handle left (never while both sides have one); last mpmc receiver clears the buffer; trace monitors with theorems for the handle lifecycle (C11_handles_trace) and for 'a closing call leaves nobody pending and unwoken' (C11_close_wakes_trace); plus a machine-checked refutation for the pre-repair broadcast receiver (finding D3). Correspondence on close status, results, wakes, value movements over all clone/drop orders of up to 3 handles.",
